@@ -109,7 +109,7 @@ class Ctx:
         if heap:
             env["JAVA_TOOL_OPTIONS"] = "-Xmx%s -Xss256m" % heap
         else:
-            env["JAVA_TOOL_OPTIONS"] = "-Xss256m"
+            env["JAVA_TOOL_OPTIONS"] = "-Xss512m"
         t = time.time()
         with open(out, "w") as fh:
             p = subprocess.run(cmd, cwd=d, stdout=fh, stderr=subprocess.STDOUT, env=env)
